@@ -112,7 +112,9 @@ def run(tier, wd):
     for s in fam:
         lines = [[], ["x"], ["--"], ["-z"], ["x", "y", "x", "y", "x", "y", "x", "y"], ["x", "y"] * 6, ["-a", "-b", "-ov"] * 7 + ["x", "y"], ["-a", "-b", "-ab", "-ba", "-a"], ["--", "--", "-a"], ["-ov", "-o", "v", "x"],
                  # empty and one-character items, a dash, an equals sign alone
-                 [""], ["", "x"], ["x", ""], ["-a", "", "-b"], ["--", ""], ["-"], ["="], ["-o", ""], ["-o="], ["--="], ["-=", "x"]]
+                 [""], ["", "x"], ["x", ""], ["-a", "", "-b"], ["--", ""], ["-"], ["="], ["-o", ""], ["-o="], ["--="], ["-=", "x"],
+                 # a valued option without value as the very last item, in every spelling
+                 ["--out"], ["-a", "--out"], ["--out", "v", "--out"], ["-o"], ["-ao"], ["x", "--out"]]
         for _ in range(4 if q else 8):
             items = g.sample_items(p, s["ast"], rnd)
             if rnd.random() < 0.5:
